@@ -24,7 +24,7 @@ RULE = ("full product object kind {VAR, VAR without ObjectType, ObjectType 2, RE
         "document-level cases (device info, comments, bit rate, suffix dispatch, pairs of kinds). non-trivial = documents "
         "with a non-default spelling, a relative value, a limit or a structured object")
 ASSUMPTIONS = [
-    "well-formed = unique names without '.', ';' or leading/trailing blanks, dense name lists, no octal spellings, no EPF",
+    "well-formed = unique names without ';' or leading/trailing blanks, object (parent) names without '.' (member names may contain dots), dense name lists, no octal spellings, no EPF",
     "negative defaults are spelled in decimal (two's complement hex is defined for limits only)",
     "$NODEID-relative values are not compared when no node id is in force",
     "for unnamed CompactSubObj arrays the generated member names, their ParameterValue and $NODEID flag are not compared (kind, type, access, PDO mapping, default, limits, sub-index are)",
@@ -95,7 +95,9 @@ def expected_value(spec, node_id):
 
 def build_doc(kind, t, dname, lname, rot, style_rot, value_mode, access, node_src):
     r = type_range(t)
-    var = {"sub": 0, "name": "The Entry", "type": t, "access": access, "pdo": (None, 0, 1, 1)[rot % 4]}
+    # member names may contain dots (the parent's name does not: 'Parent.Child' is cut at the first dot)
+    var = {"sub": 0, "name": ("The Entry", "Max. current", "Rev. 2.1 offset")[rot % 3], "type": t, "access": access,
+           "pdo": (None, 0, 1, 1)[rot % 4]}
     var["default"] = make_default(dname, t, rot % 3)
     style = {"number": ("dec", "hex", "HEX")[style_rot % 3], "sub": ("sub", "Sub")[style_rot % 2],
              "subdigits": ("upper", "lower")[(style_rot // 2) % 2], "access_upper": bool((style_rot // 3) % 2),
@@ -125,14 +127,14 @@ def build_doc(kind, t, dname, lname, rot, style_rot, value_mode, access, node_sr
         obj["vars"] = [var]
     elif kind in ("record", "array"):
         count = {"sub": 0, "name": "Highest sub-index", "type": 5, "access": "ro", "pdo": None, "default": ("abs", 2)}
-        other = {"sub": 0xA, "name": "Other", "type": 7, "access": "rw", "pdo": 0, "default": ("abs", 77)}
+        other = {"sub": 0xA, "name": ("Other", "Temp. winding")[rot % 2], "type": 7, "access": "rw", "pdo": 0, "default": ("abs", 77)}
         var["sub"] = 1
         obj["vars"] = [count, var, other]
     else:
         obj["vars"] = [var]
         obj["n"] = 3
         if kind == "compact-named":
-            obj["names"] = ["alpha", "beta", "gamma"]
+            obj["names"] = (["alpha", "beta", "gamma"], ["alpha", "be.ta", "gamma 2.0"])[rot % 2]
     doc["objects"] = [obj]
     return doc, style, node_arg
 
@@ -148,6 +150,12 @@ def compare(od, doc, node_arg, st, rc, sigp):
         ok = False
         st.violation(f"C08:{what}:{sigp}", rc, exp, got)
 
+    def look(container, key):
+        try:
+            return container[key]
+        except Exception as e:  # noqa: BLE001
+            return "lookup raised " + repr(e)[:80]
+
     for obj in doc["objects"]:
         kind = obj["kind"]
         try:
@@ -159,7 +167,7 @@ def compare(od, doc, node_arg, st, rc, sigp):
         if not isinstance(o, want_cls):
             bad("kind", want_cls.__name__, type(o).__name__)
             continue
-        if o.name != obj["name"] or od[obj["name"]] is not o:
+        if o.name != obj["name"] or look(od, obj["name"]) is not o:
             bad("name-lookup", obj["name"], o.name)
         members = []
         if want_cls is ODVariable:
@@ -170,8 +178,9 @@ def compare(od, doc, node_arg, st, rc, sigp):
                 continue
             for v in obj["vars"]:
                 m = o[v["sub"]]
-                if od[f"{obj['name']}.{v['name']}"] is not m or o[v["name"]] is not m:
-                    bad("parent-child-lookup", v["name"], "different object")
+                for how, got in (("dotted", look(od, f"{obj['name']}.{v['name']}")), ("by-name", look(o, v["name"]))):
+                    if got is not m:
+                        bad("parent-child-lookup", v["name"], got if isinstance(got, str) else "different object")
                 members.append((m, v, True))
         else:
             t = obj["vars"][0]
@@ -191,8 +200,11 @@ def compare(od, doc, node_arg, st, rc, sigp):
                     tv["value"] = None
                     tv["_generated"] = True
                 members.append((m, tv, nm is not None))
-                if nm is not None and od[f"{obj['name']}.{nm}"].subindex != k:
-                    bad("compact-name-lookup", k, od[f"{obj['name']}.{nm}"].subindex)
+                if nm is not None and look(od, f"{obj['name']}.{nm}") is not look(o, k):
+                    got = look(od, f"{obj['name']}.{nm}")
+                    # compact members are generated per access: compare what is reached, not identity
+                    if isinstance(got, str) or got.subindex != k:
+                        bad("compact-name-lookup", k, got if isinstance(got, str) else got.subindex)
         for m, v, check_name in members:
             if check_name and m.name != v["name"]:
                 bad("member-name", v["name"], m.name)
